@@ -3309,6 +3309,24 @@ class RegexMatch(Match):
 
         return {k: [*(total_char_classes[i] for i in v if not total_char_classes[i].empty())] for k, v in new_character_classes.items()}
 
+    def _live_dfa_states(self):
+        """
+        Set of states of the minimized dfa from which a finishing state is reachable
+        """
+
+        if getattr(self, "_live_dfa_states_of", None) is not self.dfa_2:
+            live = set(self.dfa_2.finishing_states)
+            changed = True
+            while changed:
+                changed = False
+                for state in self.dfa_2.states:
+                    if state not in live and any(target in live for target in state.transitions.values()):
+                        live.add(state)
+                        changed = True
+            self._live_dfa_states_of = self.dfa_2
+            self._live_dfa_states_cache = live
+        return self._live_dfa_states_cache
+
     def _create_dfa_state(self, nfdfa_state: RegexNFState, into: DFA, is_start: bool, else_path):
         """
         Recursively create the new states
@@ -3329,6 +3347,9 @@ class RegexMatch(Match):
 
         if nfdfa_state in self.dfa_2.finishing_states:
             into.mark_accepting(new_state)
+
+        # Transitions into states from which no finishing state can be reached (only possible with empty character classes) are mismatches
+        transitions = {source: target for source, target in transitions.items() if target in self._live_dfa_states()}
 
         multiple_inverted = sum(1 for source in transitions if isinstance(source, InvertedRegexCharClass)) > 1
 
